@@ -3,6 +3,7 @@ CONSTANTS
   Trees = {}
   MaxConns = {}
   MayFail = TRUE
-  CancelTail = FALSE
+  CancelTail = TRUE
+  AwaitCancelled = TRUE
   ValidateUpFront = FALSE
 CHECK_DEADLOCK FALSE
